@@ -1,7 +1,7 @@
 """C09 -- landscape arithmetic is pointwise and leaves operands untouched."""
 from fractions import Fraction
 from math import gcd
-from .. import tlc
+from .. import tlc, lazy
 from ..common import EXACT_EMBS, unfl, run_driver_parallel
 
 RULE = ("M: LandscapeAlgebra.tla -- environment machine over a pool of base landscapes (coincident breakpoints, different depth counts, "
@@ -255,7 +255,7 @@ def validate(ctx, progs, embs, label, nproc=12):
 
 def run(ctx):
     quick = ctx.tier == "quick"
-    ctx.rule = RULE
+    ctx.rule = RULE + lazy.RULE
     ctx.assumptions += ["critical points zero at both ends with integer abscissae and dyadic slopes (outside that class the underlying function is discontinuous at its ends)",
                         "scalars are dyadic rationals so that every result is exactly decodable; operand identity is a 31-bit digest of the object's full content"]
     r = tlc.run_tlc("LandscapeAlgebra", workers=16, constants=dict(MaxOps=2 if quick else 3), invariants=["PointwiseInv", "WellFormed"], properties=["OperandsUnchanged"], heap="8g")
@@ -265,8 +265,11 @@ def run(ctx):
     embs = [EXACT_EMBS[i % 4] for i in range(n)]
     validate(ctx, progs, embs, "V")
 
+    lazy.run(ctx, "C09", quick)
 
 def replay(ctx, rec):
+    if rec["case"].get("kind") == "lazy":
+        return lazy.replay(ctx, rec)
     c = rec["case"]
     e = next(x for x in EXACT_EMBS if x.name == c["emb"])
     validate(ctx, [c["prog"]], [e], "replay", nproc=1)
